@@ -17,7 +17,7 @@ operand:  N:<literal>   (a leading `-` = negative number)
                                      U <rex>   (rex: N:<lit> | @<name> | O <form> <rex> <rex>)   use in a fresh converter
                                      A <agg> <name>
                                      reply: the replies of the U / A operations joined by ` || `
-ex:       <operand>  |  O <form> <ex> <ex>      (prefix notation)
+ex:       <operand>  |  O <form> <ex> <ex>  |  AG|<agg>|<element operand>      (prefix notation)
 reply:    none | scalar | <toks>  |  vector <0|1> | <key> | <toks> | <key> | <toks> …
           | matrix <m> <n> | <toks> | <toks> …  (row-major)      tokens as wire words (PyWire) -/
 open Bptk.Py Bptk.C10
@@ -86,7 +86,13 @@ def parseEx : Nat → List String → Option (Ex × List String)
              | none => none)
           | none => none)
        | none => none)
-    | w :: rest => (parseOperand w).map fun o => (Ex.ofOperand o, rest)
+    | w :: rest =>
+      (match w.splitOn "|" with
+       | ["AG", g, ow] =>                      -- an aggregate operator as operand: AG|<agg>|<element operand>
+         (match parseAgg g, parseOperand ow with
+          | some g, some (.el e) => some (.agg g e, rest)
+          | _, _ => none)
+       | _ => (parseOperand w).map fun o => (Ex.ofOperand o, rest))
     | [] => none
 
 def parseExAll (ws : List String) : Option Ex :=
